@@ -12,6 +12,73 @@ from e2_deps import Deps
 from facts import call_args, call_obj, show, walk, CALL_KINDS
 
 
+def _deleted_non_null(f, g, dl, d):
+    """can `delete X` (X = declaration d) release a live object?  Only decided for the idiom `if (flag) delete X;` (flag a plain
+    variable): it does when a path leads from a definition of X by something else than the null pointer to the deletion without
+    crossing `flag = 0`, a redefinition of X, or the true side of a test `X == nullptr`.  Everything else: yes."""
+    from e1_paths import peel_cond
+    cur, guard = dl, None
+    for _ in range(3):
+        cur = f.parent(cur)
+        if cur is None:
+            break
+        if cur["k"] == "If" and cur["c"][-1] is None:
+            core, pol = peel_cond(cur["c"][-3])
+            if core is not None and core["k"] == "DeclRefExpr" and core.get("dk") == "var" and pol is True:
+                guard = core["d"]
+            break
+        if cur["k"] != "Block":
+            break
+    if guard is None:
+        return True
+
+    def strip(e):
+        while e is not None and e["k"] == "Cast" and e.get("c"):
+            e = e["c"][0]
+        return e
+
+    def is_null(e):
+        e = strip(e)
+        if e is None:
+            return False
+        if e["k"] == "Null":
+            return True
+        if e["k"] == "Assign" and e.get("op") == "=":
+            return is_null(e["c"][1])
+        return e["k"] in ("Int", "IntLit") and str(e.get("v")) == "0"
+    defs_x = lambda y: (y["k"] == "Assign" and y.get("op") == "=" and strip(y["c"][0]) is not None and strip(y["c"][0])["k"] == "DeclRefExpr" and
+                        strip(y["c"][0]).get("d") == d) or \
+        (y["k"] == "DeclStmt" and any(z is not None and z["k"] == "VarDecl" and z.get("d") == d for z in y.get("c") or []))
+    clears = lambda y: y["k"] == "Assign" and y.get("op") == "=" and strip(y["c"][0]) is not None and strip(y["c"][0])["k"] == "DeclRefExpr" and \
+        strip(y["c"][0]).get("d") == guard and is_null(y["c"][1])
+
+    def edge_ok(blk, k, s_):
+        if len(blk["s"]) != 2:
+            return True
+        c = g.cond(blk["b"])
+        if c is None:
+            return True
+        core, pol = peel_cond(c)
+        if core is not None and core["k"] == "DeclRefExpr" and core.get("d") == d:
+            return ((k == 0) == pol) is True        # X is not null on this path
+        return True
+    if any(p_["d"] == d for p_ in f.params):
+        return True
+    for y in f.walk():
+        if not defs_x(y) or g.pos_of(y) is None:
+            continue
+        if y["k"] == "Assign" and is_null(y["c"][1]):
+            continue
+        if y["k"] == "DeclStmt":
+            vd = [z for z in y["c"] if z is not None and z["k"] == "VarDecl" and z.get("d") == d][0]
+            if not vd.get("c") or vd["c"][0] is None or is_null(vd["c"][0]):
+                continue
+        w = g.search(g.after(y), is_target=lambda z: z["i"] == dl["i"], is_barrier=lambda z: clears(z) or defs_x(z), edge_ok=edge_ok)
+        if w is not None:
+            return True
+    return False
+
+
 def r9_11(prog, chk):
     n = 0
     for f in sorted(prog.funcs, key=lambda x: (x.file, x.line)):
@@ -34,10 +101,13 @@ def r9_11(prog, chk):
                 continue
             n += 1
             reassigned = lambda y, d=d: (y["k"] == "Assign" and y["c"][0] is not None and y["c"][0]["k"] == "DeclRefExpr" and y["c"][0].get("d") == d) or \
-                (y["k"] == "VarDecl" and y.get("d") == d)
+                (y["k"] == "VarDecl" and y.get("d") == d) or \
+                (y["k"] == "DeclStmt" and any(z is not None and z["k"] == "VarDecl" and z.get("d") == d for z in y.get("c") or []))
             uses = lambda y, d=d, dl=dl: y["i"] != dl["i"] and y["k"] in ("Return",) + tuple(CALL_KINDS) and y["k"] != "Delete" and any(
                 z["k"] == "DeclRefExpr" and z.get("d") == d for z in walk(y)) and not reassigned(y)
             w = g.search(g.after(dl), is_target=uses, is_barrier=reassigned)
+            if w is not None and not _deleted_non_null(f, g, dl, d):
+                w = None        # `if (error) delete X;` where X is null whenever `error` still holds: nothing is released
             ok = w is None
             if not ok:
                 chk.analysed(f)
